@@ -101,6 +101,16 @@ def _standin(rep, tier, seed):
             rep.violation("_p_norm(p=%s) = %s but the integral is %s on %s" % (p, got, want, cp), sig,
                           {"input": {"p": p, "critical_pairs": cp}, "observed": got, "expected": want,
                            "call": "persim.landscapes.auxiliary._p_norm(p, critical_pairs)"})
+        elif it % 4 == 0:
+            # all scales: multiply ordinates by an exact power of two - the norm must scale by the same factor (homogeneity)
+            for c in (2.0 ** -40, 2.0 ** -27, 2.0 ** 20):
+                cps = [[[x, y * c] for x, y in d] for d in cp]
+                ok2, got2, want2 = _check_real(p, cps)
+                evals += 1
+                if not ok2:
+                    rep.violation("_p_norm(p=%s) = %s but the integral is %s for ordinates scaled by %r: %s" % (p, got2, want2, c, cps), "pnorm:scale",
+                                  {"input": {"p": p, "critical_pairs": cps}, "observed": got2, "expected": want2, "call": "persim.landscapes.auxiliary._p_norm(p, critical_pairs)"})
+                    break
     rep.bounded("pnorm-vs-integral", "random piecewise-linear functions: <=3 depths, <=6 breakpoints, p in %s" % ps, evals, len(distinct),
                 "distinct = (sign pattern class, p class, shape); compared with the closed-form integral (itself cross-checked against scipy quad)",
                 samples)
